@@ -98,6 +98,9 @@ def entries(db, qt, cat, base, other):
         ("ObtainQuantity(u,c)", lambda u: ObtainQuantity(u, cat)),
         ("ObtainQuantity([(u,2)],[c])", lambda u: ObtainQuantity([(u, 2)], [cat])),
         ("ObtainQuantity([(u,1)],[c])", lambda u: ObtainQuantity([(u, 1)], [cat])),
+        ("ObtainQuantity([(u,2)],[c],caption)", lambda u: [ObtainQuantity([(u, 2)], [cat], "a caption"), ObtainQuantity([(u, 2)], [cat])]),
+        ("ObtainQuantity(OrderedDict,caption)", lambda u: [ObtainQuantity(__import__("collections").OrderedDict([(cat, [u, -2])]), None, "another caption"), ObtainQuantity([(u, -2)], [cat])]),
+        ("ObtainQuantity(u,None,caption)", lambda u: [ObtainQuantity(u, None, "third caption"), ObtainQuantity(u)]),
         ("ObtainQuantity(u,c,caption)", lambda u: ObtainQuantity(u, cat, "cap")),
         ("Quantity(c,u)", lambda u: Quantity(cat, u)),
         ("ObtainQuantity(OrderedDict)", lambda u: ObtainQuantity(__import__("collections").OrderedDict([(cat, [u, 3])]))),
